@@ -379,7 +379,7 @@ func checkBinding(r *vp.InstResult, where string, fd *descriptorpb.FileDescripto
 			r.Execs++
 			full := fmt.Sprintf("%s.%s.%s", fd.GetPackage(), svc.GetName(), m.GetName())
 			o := optsOf(m)
-			goName := m.GetName()
+			goName := goCamelCase(m.GetName())
 			st := stubs[goName]
 			key := where + ":" + goName
 			if st == nil {
@@ -430,6 +430,89 @@ func checkBinding(r *vp.InstResult, where string, fd *descriptorpb.FileDescripto
 	}
 }
 
+// goCamelCase is protoc-gen-go's identifier mangling (google.golang.org/protobuf/internal/strs).
+func goCamelCase(s string) string {
+	var b []byte
+	for i := 0; i < len(s); i++ {
+		c := s[i]
+		switch {
+		case c == '.' && i+1 < len(s) && isLower(s[i+1]):
+		case c == '.':
+			b = append(b, '_')
+		case c == '_' && (i == 0 || s[i-1] == '.'):
+			b = append(b, 'X')
+		case c == '_' && i+1 < len(s) && isLower(s[i+1]):
+		case isDigit(c):
+			b = append(b, c)
+		default:
+			if isLower(c) {
+				c -= 'a' - 'A'
+			}
+			b = append(b, c)
+			for ; i+1 < len(s) && isLower(s[i+1]); i++ {
+				b = append(b, s[i+1])
+			}
+		}
+	}
+	return string(b)
+}
+
+func isLower(c byte) bool { return 'a' <= c && c <= 'z' }
+func isDigit(c byte) bool { return '0' <= c && c <= '9' }
+
+// c17Synth checks the binding of freshly generated stubs for synthesised services whose
+// identifiers are not already Go CamelCase (the repository's own proto files all are).
+func c17Synth(r *vp.InstResult) {
+	bases := []gen.MethodSpec{
+		{In: "Req", Out: "Resp"},
+		{In: "Req", Out: "Resp", Quorumcall: true},
+		{In: "Req", Out: "Resp", Quorumcall: true, PerNodeArg: true, CustomRet: "Custom"},
+		{In: "Req", Out: "Resp", Quorumcall: true, Async: true},
+		{In: "Req", Out: "Resp", Correctable: true},
+		{In: "Req", Out: "Resp", Correctable: true, ServerStream: true, PerNodeArg: true},
+		{In: "Req", Out: "Resp", Multicast: true},
+		{In: "Req", Out: "Resp", Multicast: true, PerNodeArg: true},
+		{In: "Req", Out: "Resp", Unicast: true},
+	}
+	names := []string{"read_value", "readAsync", "read", "READ", "Read2", "get_x_y", "Read_Value", "x"}
+	k := 0
+	for si, svc := range []string{"Storage", "my_service", "svc"} {
+		for ni, n := range names {
+			var ms []gen.MethodSpec
+			for bi, b := range bases {
+				m := b
+				m.Name = n
+				if bi > 0 {
+					m.Name = fmt.Sprintf("%s_%d", n, bi)
+					if ni%2 == 1 {
+						m.Name = fmt.Sprintf("%sV%d", n, bi)
+					}
+				}
+				ms = append(ms, m)
+			}
+			spec := gen.ServiceSpec{Pkg: fmt.Sprintf("b%d_%d", si, ni), Service: svc, Messages: []string{"Req", "Resp", "Custom"}, Methods: ms}
+			c := &genCase{spec: spec}
+			if err := runPlugins(c, "protoc-gen-gorums", nil); err != nil {
+				r.Error = err.Error()
+				return
+			}
+			k++
+			if c.res.Exit != 0 || c.res.Error != "" {
+				diag, _ := c.res.Diagnostic()
+				addViol(r, "C16/legal-rejected", spec.Pkg, fmt.Sprintf("service %s with methods named like %q is rejected: %s", svc, n, firstLine(diag)), nil)
+				continue
+			}
+			src := map[string]string{}
+			for name, content := range c.res.Files {
+				src[filepath.Base(name)] = content
+			}
+			checkBinding(r, fmt.Sprintf("synthesised service %s / methods %s*", svc, n), spec.File(), src)
+		}
+	}
+	r.States, r.Steps = r.Execs, r.Execs
+	r.Sample = map[string]any{"service": "my_service", "method": "read_value_2 (quorumcall+per_node_arg+custom_return_type)", "checked": "stub ReadValue_2 sends under pkg.my_service.read_value_2 and the server registration listens on the same name"}
+}
+
 func c17Binding(d genDir, regenerated bool) func(r *vp.InstResult) {
 	return func(r *vp.InstResult) {
 		fd, err := gen.RawDescFromGoFile(filepath.Join(repoDir, d.dir, d.pbgo))
@@ -474,14 +557,14 @@ func firstLine(s string) string {
 
 func init() {
 	checks["C17"] = &check{
-		rule: "for every directory with committed *_gorums.pb.go files (dev in dev mode, benchmark, tests/*, examples): the package's proto descriptor is recovered from its .pb.go, the plugin built from the working tree regenerates the files and each is compared with the committed one as comment-free ASTs; template_static.go is compared with a fresh bundle of the static sources; for every method of every such service, in the committed and in the regenerated code, the client stub's method literal, the RegisterHandler literal and impl call, the runtime entry point, the receiver type, the per-node function and the ServerStream flag are compared with the descriptor and its options; states = files / methods compared",
+		rule: "for every directory with committed *_gorums.pb.go files (dev in dev mode, benchmark, tests/*, examples): the package's proto descriptor is recovered from its .pb.go, the plugin built from the working tree regenerates the files and each is compared with the committed one as comment-free ASTs; template_static.go is compared with a fresh bundle of the static sources; for every method of every such service, in the committed and in the regenerated code, the client stub's method literal, the RegisterHandler literal and impl call, the runtime entry point, the receiver type, the per-node function and the ServerStream flag are compared with the descriptor and its options; the same binding analysis runs on freshly generated stubs of synthesised services (3 service spellings x 8 method spellings x 9 call variants) whose identifiers are not Go CamelCase; states = files / methods compared",
 		assumptions: []string{"the descriptor embedded in the committed .pb.go is the package's proto definition (protoc is not installed)", "dynamic binding (every generated zorums call variant executed against puppet servers) is the harness half of this check"},
 		gen: func(tier string) []instance {
 			dirs, err := findGenDirs()
 			if err != nil {
 				return []instance{{"error", func(r *vp.InstResult) { r.Error = err.Error() }}}
 			}
-			out := []instance{{"current/static-bundle", c17Bundle}}
+			out := []instance{{"current/static-bundle", c17Bundle}, {"binding-synthesised/identifier-spellings", c17Synth}}
 			for _, d := range dirs {
 				out = append(out, instance{"current/" + d.dir, c17Current(d)})
 				out = append(out, instance{"binding-committed/" + d.dir, c17Binding(d, false)})
